@@ -148,6 +148,10 @@ func (fs *FS) MountPoints() []Point {
 
 // Rename implements hackpadfs.RenameFS
 func (fs *FS) Rename(oldname, newname string) error {
+	if !hackpadfs.ValidPath(oldname) || !hackpadfs.ValidPath(newname) {
+		// mountPoint trims a leading slash: an invalid name must not be turned into a different, valid one
+		return &hackpadfs.LinkError{Op: "rename", Old: oldname, New: newname, Err: hackpadfs.ErrInvalid}
+	}
 	oldMount, oldPoint, oldSubPath := fs.mountPoint(oldname)
 	newMount, newPoint, newSubPath := fs.mountPoint(newname)
 	oldInfo, err := hackpadfs.Stat(oldMount, oldSubPath)
